@@ -229,6 +229,10 @@ def R2_tier_tick_spacing(run):
     fn = facts.need_fn("state::adaptive_fee_tier::AdaptiveFeeTier::initialize")
     ws = [w for w in writes.writers_of(facts, "state::adaptive_fee_tier::AdaptiveFeeTier", "tick_spacing") if w["fn"] is fn]
     calls = [bi for bi, t in fn.calls() if (callee_path(t) or "").endswith("AdaptiveFeeTier::update_adaptive_fee_constants")]
+    if not calls:
+        # the constants' store written into initialize itself: the validation call (R3 `validated-store` ties its spacing argument to
+        # the value stored into self.tick_spacing) takes the place of the setter call
+        calls = [bi for bi, t in fn.calls() if (callee_path(t) or "").endswith("AdaptiveFeeConstants::validate_constants")]
     ok = bool(ws) and bool(calls) and all(cfg.dominates(fn, w["block"], c) for w in ws for c in calls)
     run.check("R2", "adaptive-tier-order", ok, "AdaptiveFeeTier::initialize validates the constants before self.tick_spacing is set (validation would use a stale spacing)",
               loc=fn.loc(), detail="store of tick_spacing dominates update_adaptive_fee_constants")
@@ -328,7 +332,16 @@ def _check_validated_store(run, w, field, value_pred):
         args = [pv.operand(a, bi, len(fn.blocks[bi]["s"])) for a in t["a"]]
         names = ["tick_spacing", "filter_period", "decay_period", "reduction_factor", "adaptive_fee_control_factor",
                  "max_volatility_accumulator", "tick_group_size", "major_swap_threshold_ticks"]
-        if fn.path.startswith("state::adaptive_fee_tier::") and not (is_field(args[0], "tick_spacing") and is_param(strip(args[0])[1], "self")):
+        # the tier's own spacing: self.tick_spacing, or the value this very function stores into self.tick_spacing before validating
+        # (the constants' first store written into AdaptiveFeeTier::initialize)
+        own_ts = is_field(args[0], "tick_spacing") and is_param(strip(args[0])[1], "self")
+        if not own_ts:
+            from analysis import writes as _w
+            for w2 in _w.field_stores(run.facts):
+                if w2["fn"] is fn and w2["field"] == "tick_spacing" and w2.get("root") != "local" and cfg.dominates(fn, w2["block"], bi) and \
+                        strip(pv._rvalue(w2["rv"], w2["block"], w2["stmt"], 0)) == strip(args[0]):
+                    own_ts = True
+        if fn.path.startswith("state::adaptive_fee_tier::") and not own_ts:
             why = "validate_constants is given tick spacing %s, expected self.tick_spacing of the tier being updated" % sh(args[0], 60)
             continue
         if fn.path.startswith("state::oracle::") and not is_param(args[0], "tick_spacing"):
